@@ -718,3 +718,93 @@ func ruleAncPath(w *World, r *Report) {
 		r.ok("ANC-PATH", key, w.Pos(walk.Pos()), "insertions are undone on every exit")
 	}
 }
+
+// DISP-REMATCH (C01): dispatch re-matches the rule's `when` against the event.
+func ruleDispRematch(w *World, r *Report) {
+	r.Rule("DISP-REMATCH", "in FindRules.Do a rule is appended to the work tree only under a test of the number of bindings, and those bindings come from core.Matches(rule.When.Pattern, event) whenever the rule has a `when` (the index and the linear scan only propose candidates; in LinearState.doFindRules the candidate itself is entered only under a test of Matches(pattern, event))", 2)
+	matches := w.Func("core", "Matches")
+	fn := w.Method("core", "FindRules", "Do")
+	var sinks []ssa.Instruction
+	allInstrs(fn, func(in ssa.Instruction) {
+		st, ok := storesToField(in, "core.FindRules", "Children")
+		if !ok {
+			return
+		}
+		if c, ok := st.Val.(*ssa.Call); ok {
+			if b, ok := c.Common().Value.(*ssa.Builtin); ok && b.Name() == "append" {
+				sinks = append(sinks, c)
+			}
+		}
+	})
+	isMatchLen := func(usesWhen bool) func(v ssa.Value) bool {
+		return func(v ssa.Value) bool {
+			c, ok := v.(*ssa.Call)
+			if !ok {
+				return false
+			}
+			b, ok := c.Common().Value.(*ssa.Builtin)
+			if !ok || b.Name() != "len" {
+				return false
+			}
+			return dependsOn(c.Common().Args[0], func(x ssa.Value) bool {
+				mc, ok := x.(*ssa.Call)
+				if !ok || mc.Common().StaticCallee() != matches || len(mc.Common().Args) < 3 {
+					return false
+				}
+				if !usesWhen {
+					return true
+				}
+				pat := dependsOn(mc.Common().Args[1], func(y ssa.Value) bool {
+					fa, ok := y.(*ssa.FieldAddr)
+					if !ok {
+						return false
+					}
+					_, f, _, ok := fieldOf(fa)
+					return ok && (f == "Pattern" || f == "When")
+				})
+				ev := dependsOn(mc.Common().Args[2], func(y ssa.Value) bool {
+					fa, ok := y.(*ssa.FieldAddr)
+					if !ok {
+						return false
+					}
+					_, f, _, ok := fieldOf(fa)
+					return ok && f == "Event"
+				})
+				return pat && ev
+			})
+		}
+	}
+	key := "fn=" + fname(fn)
+	if len(sinks) == 0 {
+		r.violation("DISP-REMATCH", key, w.Pos(fn.Pos()), "cannot find where FindRules.Do appends to Children (shape changed)")
+	}
+	for _, s := range sinks {
+		if controlDependsOn(fn, s, isMatchLen(true)) {
+			r.ok("DISP-REMATCH", key, w.PosOf(s), "dispatch is control dependent on len(Matches(rule.When.Pattern, event))")
+		} else {
+			r.violation("DISP-REMATCH", key, w.PosOf(s), "a rule can be dispatched without its `when` having been re-matched against the event")
+		}
+	}
+	// linear scan
+	lf := w.Method("core", "LinearState", "doFindRules")
+	n := 0
+	allInstrs(lf, func(in ssa.Instruction) {
+		mu, ok := in.(*ssa.MapUpdate)
+		if !ok {
+			return
+		}
+		if _, isMake := mu.Map.(*ssa.MakeMap); !isMake {
+			return
+		}
+		n++
+		lkey := "fn=" + fname(lf)
+		if controlDependsOn(lf, in, isMatchLen(false)) {
+			r.ok("DISP-REMATCH", lkey, w.PosOf(in), "a rule is proposed only under len(Matches(pattern, event))")
+		} else {
+			r.violation("DISP-REMATCH", lkey, w.PosOf(in), "the linear scan proposes a rule without matching its pattern against the event")
+		}
+	})
+	if n == 0 {
+		r.violation("DISP-REMATCH", "fn="+fname(lf), w.Pos(lf.Pos()), "cannot find where the linear scan collects rules (shape changed)")
+	}
+}
